@@ -138,6 +138,33 @@ def run(ctx):
                     nontrivial += 1
                 if len(samples) < 3:
                     samples.append({'grammar': spec['grammar'], 'unit': ui, 'guess': j, 'sessions': [o[:6] for o in outs]})
+                # a three-session history with the second q in the narrowest window: the resumed level has printed its last string and
+                # the generator is searching for a further one (it will find none) when q is handled - the level is then finished but the
+                # quit is pending.  (Extra yield point before every call of the OMEN generator; judged by the oracle only.)
+                if j in (js[0], js[-1]) if ctx.quick else True:
+                    for ext in ('.sav', '.omn'):
+                        if os.path.exists(sf[:-4] + ext):
+                            os.remove(sf[:-4] + ext)
+                    try:
+                        h1 = ss.run_session(pcfg, sf, C12.new_cfg(), False, sched1, [('line', 'q', False)])
+                        r_left = n - 1 - j
+                        h2 = ss.run_session(pcfg, sf, load_cfg(sf), True, 'm' * (2 * r_left) + 'kk' + 'm' * (2 * len(full) + len(units) + 5),
+                                            [('line', 'q', False)], omen_yield=True)
+                        hs = [h1['out'], h2['out']]
+                        if h2['state'] == 'exited':
+                            h3 = ss.run_session(pcfg, sf, load_cfg(sf), True, 'm' * (2 * len(full) + len(units) + 5), [], omen_yield=True)
+                            hs.append(h3['out'])
+                    except Exception as e:
+                        viol.append({'property': 'C15', 'kind': 'session-raised', 'error': repr(e)[:200], 'witness': dict(wit, history='end-of-level-search')})
+                        continue
+                    cases += 1
+                    dist['end_of_level_histories'] = dist.get('end_of_level_histories', 0) + 1
+                    tot = [l for o in hs for l in o]
+                    if tot != full:
+                        lastm = units[-1][0] == 'm' and tot == full[:len(tot)] and len(tot) > len(full) - len(units[-1][2])
+                        viol.append({'property': 'C15', 'kind': 'quit-in-last-markov-unit' if lastm else ('omen-replay' if len(tot) > len(full) else 'lost-after-resume'),
+                                     'emitted': len(tot), 'full': len(full), 'sessions': [len(o) for o in hs], 'history': 'second q during the end-of-level search',
+                                     'witness': dict(wit, history='end-of-level-search')})
     if ctx.driver_ok:
         # `ss.run1` lines carry (pos, opt, omn) of the files the session was loaded from
         fixed = []
@@ -192,6 +219,14 @@ def replay(ctx, payload):
             os.remove(sf[:-4] + ext)
     r1 = ss.run_session(pcfg, sf, C12.new_cfg(), False, quit_schedule(units, w['unit'], w['guess']), [('line', 'q', False)])
     outs = [r1['out']]
+    if w.get('history') == 'end-of-level-search':
+        r_left = len(units[w['unit']][2]) - 1 - w['guess']
+        h2 = ss.run_session(pcfg, sf, load_cfg(sf), True, 'm' * (2 * r_left) + 'kk' + 'm' * (2 * len(full) + len(units) + 5), [('line', 'q', False)], omen_yield=True)
+        outs.append(h2['out'])
+        if h2['state'] == 'exited':
+            outs.append(ss.run_session(pcfg, sf, load_cfg(sf), True, 'm' * (2 * len(full) + len(units) + 5), [], omen_yield=True)['out'])
+        total = [l for o in outs for l in o]
+        return [] if total == full else [{'kind': 'history-differs', 'emitted': len(total), 'full': len(full)}]
     cut = 3
     r2 = ss.run_session(pcfg, sf, load_cfg(sf), True, 'm' * (len(units[w['unit']][2]) + cut) + 'kmk' + 'm' * 200, [('line', 'q', False)])
     outs.append(r2['out'])
